@@ -22,9 +22,32 @@ WIDE_I = {"f3": 3, "f4": 4, "sum3": 3, "msum": 4, "idx": 3}
 BIN_B = ["&&", "||", "^"]
 
 
+# variable leaves: ("v",) reads the module variable gx, ("u",) calls u(i) which logs, increments gx and returns it;
+# ("vb",) reads the module variable gb, ("ub",) calls ub(i) which logs, flips gb and returns it.  A variable read must see
+# the value at its own position in the left-to-right order, whatever later (or earlier) siblings do to the variable.
+IV_LEAVES = [("v",), ("u",)]
+BV_LEAVES = [("vb",), ("ub",)]
+LEAVES = {"I": I_LEAVES, "B": B_LEAVES, "O": O_LEAVES}
+
+
+class leafset:
+    """with leafset(I=..., B=...): the generators below draw their leaves from these sets"""
+
+    def __init__(self, **kw):
+        self.kw = kw
+
+    def __enter__(self):
+        self.old = dict(LEAVES)
+        LEAVES.update(self.kw)
+
+    def __exit__(self, *a):
+        LEAVES.clear()
+        LEAVES.update(self.old)
+
+
 def ty(n):
     k = n[0]
-    if k in ("bt", "bf", "&&", "||", "^", "!") or k in CMP:
+    if k in ("bt", "bf", "vb", "ub", "&&", "||", "^", "!") or k in CMP:
         return "B"
     if k in ("o", "on"):
         return "O"
@@ -32,28 +55,28 @@ def ty(n):
 
 
 def leaves_of(t):
-    return {"I": I_LEAVES, "B": B_LEAVES, "O": O_LEAVES}[t]
+    return LEAVES[t]
 
 
 def depth1():
     """all nodes whose children are leaves"""
     out = []
     for op in BIN_I:
-        for a, b in itertools.product(I_LEAVES, repeat=2):
+        for a, b in itertools.product(leaves_of("I"), repeat=2):
             out.append((op, a, b))
     for op, n in WIDE_I.items():
-        for ch in itertools.product(I_LEAVES, repeat=n):
+        for ch in itertools.product(leaves_of("I"), repeat=n):
             out.append((op,) + ch)
-    for o_ in O_LEAVES:
-        for a in I_LEAVES:
+    for o_ in leaves_of("O"):
+        for a in leaves_of("I"):
             out.append(("or", o_, a))
     for op in CMP:
-        for a, b in itertools.product(I_LEAVES, repeat=2):
+        for a, b in itertools.product(leaves_of("I"), repeat=2):
             out.append((op, a, b))
     for op in BIN_B:
-        for a, b in itertools.product(B_LEAVES, repeat=2):
+        for a, b in itertools.product(leaves_of("B"), repeat=2):
             out.append((op, a, b))
-    for a in B_LEAVES:
+    for a in leaves_of("B"):
         out.append(("!", a))
     return out
 
@@ -81,7 +104,7 @@ def trees_full(depth, t):
         return list(leaves_of(t))
     out = list(leaves_of(t))
     subs = {tt: trees_full(depth - 1, tt) for tt in ("I", "B", "O")}
-    subs["O"] = list(O_LEAVES)
+    subs["O"] = list(leaves_of("O"))
     for op in [o for o in ALL_OPS if o in CORE]:
         cts = child_types(op)
         if ty((op,)) != t:
@@ -149,6 +172,20 @@ def trees_spine(depth, t, memo=None):
     return out
 
 
+SYNTACTIC = set(BIN_I) - {"f2", "m", "+s"} | set(CMP) | set(BIN_B) | {"!", "or"}
+
+
+def syntactic_chain(n, need):
+    """does the tree contain a parent-child chain of `need` operator nodes written with operator syntax (so that their
+    grouping in the minimal-parentheses rendering is decided by the precedence table alone)?"""
+    if len(n) == 1:
+        return need <= 0
+    if n[0] not in SYNTACTIC:
+        return any(syntactic_chain(c, need) for c in n[1:])
+    return need <= 1 or any(syntactic_chain(c, need - 1) if len(c) > 1 and c[0] in SYNTACTIC else syntactic_chain(c, need)
+                            for c in n[1:])
+
+
 def tdepth(n):
     if len(n) == 1:
         return 0
@@ -173,6 +210,14 @@ class Builder:
             return ("call", V("bv"), [("int", self.nid()), ("bool", True)])
         if k == "bf":
             return ("call", V("bv"), [("int", self.nid()), ("bool", False)])
+        if k == "v":
+            return V("gx")
+        if k == "u":
+            return ("call", V("u"), [("int", self.nid())])
+        if k == "vb":
+            return V("gb")
+        if k == "ub":
+            return ("call", V("ub"), [("int", self.nid())])
         if k == "o":
             return ("call", V("ov"), [("int", self.nid()), ("int", 1)])
         if k == "on":
@@ -242,12 +287,20 @@ def prelude(used=None):
     msum = ("assign", "msum", ("fn", [("mm", "map[int, int]")], "int",
                                [("print", ("bin", "+", ("str", "msum "), ("method", V("mm"), "len", []))),
                                 ("return", ("method", V("mm"), "len", []))]), None, ())
+    gx = ("assign", "gx", lit(1), None, ())
+    u = ("assign", "u", ("fn", [("i", "int")], "int",
+                         [("print", ("bin", "+", ("str", "u "), V("i"))),
+                          ("assign", "gx", ("bin", "+", V("gx"), lit(1)), None, ("modify",)), ("return", V("gx"))]), None, ())
+    gb = ("assign", "gb", ("bool", True), None, ())
+    ub = ("assign", "ub", ("fn", [("i", "int")], "bool",
+                           [("print", ("bin", "+", ("str", "ub "), V("i"))),
+                            ("assign", "gb", ("not", V("gb")), None, ("modify",)), ("return", V("gb"))]), None, ())
     cls = ("class", "K", [("base", "int")], ([("b", "int")], [("setfield", V("self"), "base", V("b"))]),
            [("m", [("a", "int"), ("b", "int")], "int",
              [("print", ("bin", "+", ("bin", "+", ("str", "m "), V("a")), ("bin", "+", ("str", " "), V("b")))),
               ("return", ("bin", "+", ("bin", "-", V("a"), V("b")), ("field", V("self"), "base")))])])
     ko = ("assign", "ko", ("new", "K", [lit(10)]), None, ())
-    need = {"t": [t], "r": [t, r], "bt": [bv], "bf": [bv], "o": [ov], "on": [ov], "f2": [f2], "f3": [f3], "f4": [f4],
+    need = {"v": [gx], "u": [gx, u], "vb": [gb], "ub": [gb, ub], "t": [t], "r": [t, r], "bt": [bv], "bf": [bv], "o": [ov], "on": [ov], "f2": [f2], "f3": [f3], "f4": [f4],
             "sum3": [sum3], "idx": [pick], "+s": [slen], "msum": [msum], "m": [cls, ko]}
     out = []
     for k in (used if used is not None else need):
@@ -257,46 +310,95 @@ def prelude(used=None):
     return out
 
 
-def build(tree, ctx):
+def body_of(tree, ctx, k=""):
+    """statements evaluating the tree in its context; k makes the helper names unique when several trees share a program"""
     b = Builder()
     e = b.expr(tree)
     t = ty(tree)
-    body = []
     if ctx == "print":
-        body = [("print", e)]
-    elif ctx == "assign":
-        body = [("assign", "res", e, None, ()), ("print", V("res"))]
-    elif ctx == "if":
+        return [("print", e)]
+    if ctx == "assign":
+        return [("assign", "res" + k, e, None, ()), ("print", V("res" + k))]
+    if ctx == "if":
         cond = e if t == "B" else ("bin", "<", e, lit(2))
-        body = [("if", cond, [("print", ("str", "T"))], [("print", ("str", "F"))])]
-    elif ctx == "arg":
+        return [("if", cond, [("print", ("str", "T"))], [("print", ("str", "F"))])]
+    if ctx == "arg":
         if t == "B":
             return None
-        body = [("print", ("call", V("f2"), [e, ("call", V("t"), [lit(99)])]))]
-    elif ctx == "return":
+        return [("print", ("call", V("f2"), [e, ("call", V("t"), [lit(99)])]))]
+    if ctx == "return":
         rt = {"I": "int", "B": "bool"}[t]
-        body = [("assign", "host", ("fn", [], rt, [("return", e)]), None, ()), ("print", ("call", V("host"), []))]
-    elif ctx == "while":
+        return [("assign", "host" + k, ("fn", [], rt, [("return", e)]), None, ()), ("print", ("call", V("host" + k), []))]
+    if ctx == "while":
         cond = e if t == "B" else ("bin", "<", e, lit(2))
-        body = [("assign", "cnt", lit(0), None, ()),
-                ("while", ("bin", "&&", ("bin", "<", V("cnt"), lit(2)), cond),
-                 [("assign", "cnt", ("bin", "+", V("cnt"), lit(1)), None, ())]), ("print", V("cnt"))]
+        return [("assign", "cnt" + k, lit(0), None, ()),
+                ("while", ("bin", "&&", ("bin", "<", V("cnt" + k), lit(2)), cond),
+                 [("assign", "cnt" + k, ("bin", "+", V("cnt" + k), lit(1)), None, ())]), ("print", V("cnt" + k))]
+    raise ValueError(ctx)
+
+
+ORDER = ["v", "u", "vb", "ub", "t", "r", "bt", "bf", "o", "on", "f2", "f3", "f4", "sum3", "idx", "+s", "msum", "m"]
+
+
+def used_of(tree, ctx):
     used = set(_ops(tree))
     if ctx == "arg":
         used |= {"f2", "t"}
-    order = ["t", "r", "bt", "bf", "o", "on", "f2", "f3", "f4", "sum3", "idx", "+s", "msum", "m"]
-    return prelude([k for k in order if k in used]) + body + [("print", ("str", "end"))]
+    return used
+
+
+def build(tree, ctx):
+    body = body_of(tree, ctx)
+    if body is None:
+        return None
+    used = used_of(tree, ctx)
+    return prelude([k for k in ORDER if k in used]) + body + [("print", ("str", "end"))]
+
+
+def build_group(items):
+    """items: [(k, tree, ctx)] -> one program: the union prelude, then per tree a marker line, a reset of the mutable module
+    variables it reads, and its body"""
+    used = set()
+    for _, tree, ctx in items:
+        used |= used_of(tree, ctx)
+    ast = prelude([k for k in ORDER if k in used])
+    for k, tree, ctx in items:
+        ast.append(("print", ("str", f"#{k}")))
+        u = used_of(tree, ctx)
+        if u & {"v", "u"}:
+            ast.append(("assign", "gx", lit(1), None, ()))
+        if u & {"vb", "ub"}:
+            ast.append(("assign", "gb", ("bool", True), None, ()))
+        ast += body_of(tree, ctx, str(k))
+    ast.append(("print", ("str", "end")))
+    return ast
+
+
+def split_markers(lines):
+    """['#0', a, b, '#1', c, 'end'] -> {0: [a, b], 1: [c]}, tail"""
+    out, cur = {}, None
+    for l in lines:
+        if l.startswith("#") and l[1:].isdigit():
+            cur = int(l[1:])
+            out[cur] = []
+        elif cur is not None:
+            out[cur].append(l)
+    return out
 
 
 class C15(Check):
     id = "C15"
     level = "model_checking"
     rule = ("typed expression trees whose leaves are logging calls t(i) (int), r(i) (recursive: re-enters the same code one frame deeper and "
-            "evaluates a binary expression there), b(i) (bool true/false), o(i) (int? present/nil); nodes: every binary operator of the language (+ - * / % & | xor << >> < <= > >= == != && || ^), string concatenation, "
+            "evaluates a binary expression there), b(i) (bool true/false), o(i) (int? present/nil), and - in the variable-leaf layers - bare reads of a "
+            "module variable (int gx / bool gb) next to calls u(i) / ub(i) that log, modify that variable and return it, so that a read "
+            "performed too late or too early is visible; nodes: every binary operator of the language (+ - * / % & | xor << >> < <= > >= == != && || ^), string concatenation, "
             " f2..f4(E,..), obj.m(E,E), list literal [E,E,E], list literal + index, map literal {E:E,E:E}, B&&B, B||B, !B, (O) or E; "
             "all trees of depth <=1, depth 2 with every child arbitrary for unary/binary nodes, depths 2-4 by rule 1 (one arbitrary child, "
             "siblings over all leaves); statement contexts print / assignment / if condition / while condition / call argument / return.")
-    assumptions = ["leaf values are small so that no arithmetic overflow occurs", "map literal observed through its length only"]
+    assumptions = ["leaf values are small so that no arithmetic overflow occurs", "map literal observed through its length only",
+                   "eight trees share one program run (marker line, reset of gx/gb, then the tree's statements); a group whose run differs "
+                   "from the model in any line is re-run tree by tree, and a group that differs although every tree passes alone is reported as such"]
     chunksize = 16
     quick_cap_s = 45
 
@@ -310,7 +412,20 @@ class C15(Check):
         r3 = [n for t in ("I", "B") for n in trees_rule1(3, t, memo) if tdepth(n) == 3]
         sm = {}
         s3 = [n for t in ("I", "B") for n in trees_spine(3, t, sm) if tdepth(n) == 3]
-        ls = [("L0-depth1-all-contexts", L0), ("L1-depth2-rule1", [(n, "print") for n in r2])]
+        ls = [("L0-depth1-all-contexts", L0), ("L1-depth2-rule1", [(n, "print") for n in r2]),
+              ("Lp-depth2-operator-pairs-minimal-parentheses", [(n, "print", "min") for n in r2 if syntactic_chain(n, 2)])]
+        with leafset(I=IV_LEAVES + [("t",)], B=BV_LEAVES + [("bt",)]):
+            v1 = depth1()
+        with leafset(I=IV_LEAVES, B=BV_LEAVES):
+            vm = {}
+            v2 = [n for t in ("I", "B") for n in trees_rule1(2, t, vm) if tdepth(n) == 2]
+            v3 = [n for t in ("I", "B") for n in trees_spine(3, t, {}) if tdepth(n) == 3]
+        ls.append(("Lv0-depth1-variable+mutator-leaves-all-contexts", [(n, c) for n in v1 for c in ctxs]))
+        if tier == "quick":
+            ls.append(("Lv1-depth2-rule1-variable+mutator-leaves", [(n, "print") for n in v2]))
+        else:
+            ls.append(("Lv1-depth2-rule1-variable+mutator-leaves", [(n, c) for n in v2 for c in ("print", "return", "arg")]))
+            ls.append(("Lv2-depth3-spines-variable+mutator-leaves", [(n, "print") for n in v3]))
         if tier == "quick":
             ls.append(("L2q-depth2-full-roots(- && || or !)", [(n, "print") for n in full2 if n[0] in ("-", "&&", "||", "or", "!")]))
             ls.append(("L3q-depth3-spines", [(n, "print") for n in s3]))
@@ -318,18 +433,78 @@ class C15(Check):
             ls.append(("L2-depth2-full-binary", [(n, c) for n in full2 for c in ("print", "if")]))
             ls.append(("L3q-depth3-spines", [(n, c) for n in s3 for c in ("print", "return", "while")]))
             ls.append(("L4-depth4-spines", ((n, "print") for t in ("I", "B") for n in trees_spine(4, t, sm) if tdepth(n) == 4)))
+            ls.append(("Lp3-depth3-operator-triples-minimal-parentheses", [(n, "if", "min") for n in r3 if syntactic_chain(n, 3)]))
             ls.append(("L3-depth3-rule1", ((n, "print") for n in r3)))
         return ls
 
     def describe(self, case):
-        return {"tree": repr(case[0]), "context": case[1]}
+        if case[0] == "__batch__":
+            return {"group": [repr(c[0]) for c in case[1]]}
+        return {"tree": repr(case[0]), "context": case[1], "rendering": "minimal parentheses" if len(case) > 2 else "fully parenthesised"}
+
+    batch = 8
+
+    def ok_result(self, tree, ctx, nlines):
+        ops = sorted({k for k in _ops(tree)})
+        return {"outcome": "ok", "viol": [], "nontrivial": True,
+                "tags": [f"op{o}" for o in ops] + [f"ctx-{ctx}", f"depth{tdepth(tree)}"],
+                "counters": {"states": nlines + 1, "transitions": nlines}}
+
+    def run_group(self, cases):
+        """one run for the whole group.  -> (results or None, detail)"""
+        items, results = [], [None] * len(cases)
+        minp = len(cases[0]) > 2
+        for k, case in enumerate(cases):
+            tree, ctx = case[0], case[1]
+            if (len(case) > 2) != minp:
+                return None, None
+            ast1 = build(tree, ctx)
+            if ast1 is None:
+                results[k] = {"outcome": "inexpressible", "nontrivial": False}
+                continue
+            ok, _ = refint.Interp().run(ast1)
+            if not ok:
+                results[k] = {"outcome": "model-failure", "nontrivial": False, "tags": ["model-failure"]}
+                continue
+            items.append((k, tree, ctx))
+        if not items:
+            return results, None
+        ast = build_group(items)
+        src = refint.program(ast, minparen=minp)
+        it = refint.Interp()
+        ok, _ = it.run(ast)
+        if not ok:
+            return None, None
+        res = driver.run_ms(src)
+        lines = res.lines()
+        detail = {"files": {"x.ms": src}, "res": res.brief(), "expected_lines": it.out}
+        if res.exit != 0 or lines != it.out:
+            return None, detail
+        exp = split_markers(it.out)
+        for k, tree, ctx in items:
+            results[k] = self.ok_result(tree, ctx + ("~minparen" if minp else ""), len(exp.get(k, [])))
+        return results, detail
+
+    def run_batch(self, cases):
+        return self.run_group(cases)[0]
 
     def run_case(self, case):
-        tree, ctx = case
+        if case[0] == "__batch__":
+            rs, detail = self.run_group(list(case[1]))
+            if rs is not None or detail is None:
+                return {"outcome": "ok", "nontrivial": False}
+            return {"outcome": "group-DIFF", "nontrivial": True,
+                    "viol": [{"sig": {"kind": "group-only", "ops": "", "ctx": ""},
+                              "what": f"{len(case[1])} trees evaluated one after the other in one program differ from the model although each "
+                                      f"passes on its own: {[c[0] for c in case[1]]!r}", "detail": detail}]}
+        tree, ctx = case[0], case[1]
+        minp = len(case) > 2
         ast = build(tree, ctx)
         if ast is None:
             return {"outcome": "inexpressible", "nontrivial": False}
-        src = refint.program(ast)
+        src = refint.program(ast, minparen=minp)
+        if minp:
+            ctx += "~minparen"
         it = refint.Interp()
         ok, failure = it.run(ast)
         res = driver.run_ms(src)
@@ -346,10 +521,9 @@ class C15(Check):
                          "what": f"{tree!r} in {ctx}: exit {res.exit} ({driver.classify_failure(res)}) after {lines[-3:]}", "detail": detail})
         elif lines != it.out:
             i = next((j for j, (a, b) in enumerate(zip(lines, it.out)) if a != b), min(len(lines), len(it.out)))
-            kind = "order-or-count" if sorted(lines) != sorted(it.out) or True else "value"
             # distinguish: same multiset of log lines but different order / different evaluation count / different value
-            exp_log = [l for l in it.out if l[:2] in ("t ", "r ", "b ", "o ")]
-            got_log = [l for l in lines if l[:2] in ("t ", "r ", "b ", "o ")]
+            exp_log = [l for l in it.out if l.split(" ")[0] in ("t", "r", "b", "o", "u", "ub")]
+            got_log = [l for l in lines if l.split(" ")[0] in ("t", "r", "b", "o", "u", "ub")]
             if exp_log == got_log:
                 kind = "value"
             elif sorted(exp_log) == sorted(got_log):
@@ -359,15 +533,19 @@ class C15(Check):
             viol.append({"sig": {"kind": kind, "ops": ",".join(ops), "ctx": ctx},
                          "what": f"{tree!r} in {ctx}: line {i} expected {it.out[i] if i < len(it.out) else '<end>'!r} got "
                                  f"{lines[i] if i < len(lines) else '<end>'!r}", "detail": detail})
-        return {"outcome": "ok" + ("-DIFF" if viol else ""), "viol": viol, "nontrivial": True,
+        if not viol:
+            return self.ok_result(tree, ctx, len(it.out))
+        return {"outcome": "ok-DIFF", "viol": viol, "nontrivial": True,
                 "tags": [f"op{o}" for o in ops] + [f"ctx-{ctx}", f"depth{tdepth(tree)}"],
                 "counters": {"states": len(it.out) + 1, "transitions": len(it.out)}}
 
     def finish(self, stats, tier):
         errs = []
-        for o in ALL_OPS:
+        for o in ALL_OPS + ["v", "u", "vb", "ub"]:
             if not stats["tags"].get(f"op{o}"):
                 errs.append(f"vacuity: node kind {o} never executed")
+        if not stats["tags"].get("ctx-print~minparen"):
+            errs.append("vacuity: no tree rendered with minimal parentheses")
         rej = stats["tags"].get("rejected", 0)
         if rej > stats["evaluations"] * 0.1:
             errs.append(f"vacuity: {rej} programs rejected by the compiler")
